@@ -283,9 +283,14 @@ def run_property(prop, tier, seed, jobs, write_baseline, t_start):
         inlined |= set(r.get("inlined", []))
         by_contract |= set(r.get("called_by_contract", []))
         for b in r.get("unwind_bounds", []):
-            bounds.add("%s line %s: unrolled %s times" % tuple(b))
+            bounds.add("%s line %s: unrolled %s times (unwinding assumption)" % tuple(b))
         for d in r.get("defaulted_params", []):
             defaulted.add("%s(%s=<default>)" % tuple(d))
+        for bc in r.get("bounded_clauses_assumed", []):
+            bounds.add("callee clause assumed in an unbounded proof but itself verified only by the bounded stand-in: " + bc)
+        for bc in r.get("bounded_only_clauses", []):
+            if r["unit"]["kind"] == "inv":
+                bounds.add("clause not part of the unbounded proof (decided by the bounded stand-in only): " + bc)
         if r["unit"]["kind"] in ("inv", "unroll"):
             funcs.append({"function": r["unit"]["qual"], "mode": "INV (unbounded)" if r["unit"]["kind"] == "inv" else
                           "UNROLL bounded(%d)" % r["unit"].get("bound", 3), "span": r.get("span"), "ast_sha": r.get("hash"),
